@@ -90,6 +90,11 @@ def configure(job, labels: dict | None = None):
 def twice(xs):
     g = (x * x for x in xs)
     return list(g), list(g)
+
+def best(cands):
+    if len(cands) <= 1:
+        pass
+    return cands[0]
 '''
     good = '''
 def make(a, opt=None):
@@ -135,10 +140,15 @@ def configure(job, labels: dict | None = None):
 def twice(xs):
     g = [x * x for x in xs]
     return list(g), list(g)
+
+def best(cands):
+    if len(cands) == 0:
+        return None
+    return cands[0]
 '''
     rel = 'cirq-core/cirq/work/zz_fixture.py'
     base = core.Repo()
-    for src, want in ((bad, {'z_fwd': 1, 'z_drop': 1, 'z_pair': 2, 'z_get': 1, 'z_ctor': 1, 'z_opt': 1, 'z_gen': 1, 'z_memo': 1}), (good, {})):
+    for src, want in ((bad, {'z_fwd': 1, 'z_drop': 1, 'z_pair': 2, 'z_get': 1, 'z_ctor': 1, 'z_opt': 1, 'z_gen': 1, 'z_memo': 1, 'z_first': 1}), (good, {})):
         r = core.Repo(overlay={rel: src}, base=base)
         ctx = report.Ctx('C18', 'quick', r)
         general.apply(ctx, 'C18')
